@@ -165,6 +165,9 @@ func TestVerif_C17_body(t *testing.T) {
 					multipartOn = false
 				}
 			}
+			if len(cl.keys) > 0 && len(pairs) > 0 {
+				multipartOn = false // one class of known finding per case
+			}
 			if !multipartOn {
 				req.DisableForceMultipart()
 				req.uploadFiles = nil
